@@ -138,9 +138,62 @@ async fn auth(a: &Value) -> Value {
     json!({"status": resp.status().to_u16(), "inner_calls": calls.load(std::sync::atomic::Ordering::SeqCst), "body": resp.body().to_vec()})
 }
 
-#[tokio::main(flavor = "current_thread")]
-async fn main() {
+fn echo() -> tower::util::BoxCloneService<Request<Bytes>, Response<Bytes>, std::convert::Infallible> {
+    tower::ServiceExt::boxed_clone(tower::service_fn(|r: Request<Bytes>| async move {
+        Ok::<_, std::convert::Infallible>(Response::new(r.into_body()))
+    }))
+}
+fn network(key: u8, limit: Option<usize>) -> anemo::Network {
+    let mut c = Config::default();
+    c.max_concurrent_connections = limit;
+    c.connect_timeout_ms = Some(3000);
+    anemo::Network::bind("127.0.0.1:0").server_name("verif").private_key([key; 32]).config(c).start(echo()).expect("network")
+}
+/// C10 on real networks: node 0 has the limit; each step either lets a fresh peer dial node 0 ("in", optionally after giving it
+/// an affinity in node 0's known-peer table) or lets node 0 dial a fresh peer explicitly ("out").
+async fn admission(a: &Value) -> Value {
+    use anemo::types::{PeerAffinity, PeerInfo};
+    let limit = a.get("limit").and_then(|x| x.as_u64()).map(|x| x as usize);
+    let subject = network(1, limit);
+    let mut peers = Vec::new();
+    let mut out = Vec::new();
+    for (i, step) in a["steps"].as_array().unwrap().iter().enumerate() {
+        let peer = network(10 + i as u8, None);
+        if let Some(aff) = step.get("affinity").and_then(|x| x.as_str()) {
+            let affinity = match aff { "high" => PeerAffinity::High, "allowed" => PeerAffinity::Allowed, _ => PeerAffinity::Never };
+            subject.known_peers().insert(PeerInfo { peer_id: peer.peer_id(), affinity, address: vec![] });
+        }
+        let before = subject.peers().len();
+        let res = if step["dir"] == "in" {
+            peer.connect_with_peer_id(subject.local_addr(), subject.peer_id()).await.map(|_| ())
+        } else {
+            subject.connect_with_peer_id(peer.local_addr(), peer.peer_id()).await.map(|_| ())
+        };
+        // let the listener side settle (registration happens right after the acknowledgement is delivered)
+        let mut listed = false;
+        for _ in 0..40 {
+            listed = subject.peers().contains(&peer.peer_id());
+            if listed == res.is_ok() { break; }
+            tokio::time::sleep(Duration::from_millis(10)).await;
+        }
+        let rpc_ok = if listed { subject.rpc(peer.peer_id(), Request::new(Bytes::from_static(b"x"))).await.is_ok() } else { false };
+        out.push(json!({"established_before": before, "connect_ok": res.is_ok(), "listed": listed, "rpc_ok": rpc_ok}));
+        peers.push(peer);
+    }
+    json!({"steps": out})
+}
+
+fn main() {
     let args: Vec<String> = std::env::args().collect();
+    let multi = matches!(args.get(1).map(|s| s.as_str()), Some("admission") | Some("active_peers_ops"));
+    let rt = if multi {
+        tokio::runtime::Builder::new_multi_thread().worker_threads(2).enable_all().build().unwrap()
+    } else {
+        tokio::runtime::Builder::new_current_thread().enable_all().build().unwrap()
+    };
+    rt.block_on(run(args));
+}
+async fn run(args: Vec<String>) {
     let scenario = args.get(1).expect("scenario").as_str();
     let raw = match args.get(2).map(|s| s.as_str()) {
         Some("-") | None => {
@@ -234,6 +287,7 @@ async fn main() {
         "duration_to_timeout" => json!({"header": h::duration_to_timeout(Duration::new(a["secs"].as_u64().unwrap(), a["nanos"].as_u64().unwrap_or(0) as u32))}),
         "timeout_select" => timeout_select(&a).await,
         "auth" => auth(&a).await,
+        "admission" => admission(&a).await,
         other => json!({"error": format!("unknown scenario {other}")}),
     };
     println!("{}", out);
